@@ -129,3 +129,54 @@ def c02(ck):
 def c02_values(ck):
     """every value of the 1- and 2-byte formats, F4 bit patterns (interval summaries)"""
     pass
+
+
+# ---------------------------------------------------------------------------------------------- C13
+@check("C13", design_ref="4 C13",
+       technique="TLC sweep of the TLA+ item-header definition over every size; interval summaries of the real header routine (verif hook) and run-length summaries of real items at every boundary validated by TLC",
+       text="The space is finite (14 formats x 16,777,232 sizes): TLC sweeps the specification's ItemHeader over it (thorough: every size; quick: "
+            "stride 61 plus every breakpoint +-3) and the harness sweeps the real, unexported header routine over the same sizes, reporting the "
+            "maximal intervals on which its class is constant; TLC checks each interval (thorough: every point of it) and sampled header bytes "
+            "against the specification. Real items are then built at 0,1,2, 255|256, 65535|65536 and max|max+1 elements for every format, encoded, "
+            "decoded and re-encoded; TLC checks constructibility, header, payload runs, the length the decoder read (hook) and the decoded values.",
+       note="quick tier thins the sweep (windows of +-40 sizes around every breakpoint, stride 257 between); lists of 16.7 M children are decoded "
+            "in the thorough tier only; payloads are compared as run-length summaries computed by the harness")
+def c13(ck):
+    ck.rule.append("sweep: sizes 0..max+16 x 14 formats through VerifHeaderBytes (interval = maximal run of sizes with the same "
+                   "error/format-byte/length-byte-count class and exact declared length); big: real items with n elements for n at "
+                   "every boundary; non-trivial = interval or point events, and big events with n >= 255/width; distinct by event content")
+    ck.model("MCHeader", "MCHeader", "MCHeader_%s.cfg" % ck.tier, timeout=q(ck, 300, 3000))
+    ck.trace("sweep", "hdr-sweep", [], "TraceCodec", "TraceCodec.cfg", ["InvHdr"], timeout=q(ck, 300, 3000),
+             consts_extra={"ChunkSize": 1})
+    if ck.violations:
+        return
+    ck.exhaustive = ck.tier == "thorough"
+    ck.trace("big", "big", [], "TraceCodec", "TraceCodec.cfg", ["InvBig"],
+             nontrivial=lambda e: e.get("n", 0) >= 31)
+    if ck.violations:
+        return
+    # element counts around 255|256 with random values, through the ordinary round-trip events
+    ck.trace("rt", "rt", ["-n", q(ck, 400, 4000)], "TraceCodec", "TraceCodec.cfg", ["InvC13"])
+    ck.assumptions += ["run-length compression and big-endian decoding of the length bytes in the harness are trusted plumbing",
+                       "TLC 32-bit integers suffice: the largest product is 2,097,168 * 8"]
+
+
+# ---------------------------------------------------------------------------------------------- C07
+@check("C07", design_ref="4 C07",
+       technique="TLC model checking of the decoder machine (in-bounds, termination, amortised allocation invariant); trace validation of isolated-worker runs of real hsms.Parse with runtime.MemStats as instrument",
+       text="On the model TLC checks, for every input of the bounded scope, that the decoder machine never reads out of bounds, always terminates and "
+            "that every element slot it requests is paid for by input bytes already consumed (which pre-allocation by declared count falsifies in "
+            "a 4-byte text). The real decoder is run in an isolated worker on adversarial families (huge declared lengths at each depth and format, "
+            "nested lists declaring as many elements as bytes remain, long and truncated payloads, deep nesting, random bytes); TLC checks each "
+            "recorded outcome and TotalAlloc delta against the specification's fixed linear bound.",
+       note="runtime.MemStats.TotalAlloc, process exit status and RLIMIT_AS are instruments; running time is not judged (a watchdog overrun is exit 2); "
+            "the bound 4 KB/byte + 64 KB is fixed in HsmsDecoder.tla")
+def c07(ck):
+    ck.rule.append("model: MCDecoder scope; traces: about 490 adversarial inputs per seed in 8 families, each run in an isolated worker process "
+                   "(RLIMIT_AS 8 GB) recording outcome and bytes allocated; non-trivial = input longer than the 14-byte frame; distinct by family and head")
+    ck.model("MCDecoder", "MCDecoder", "MCDecoder_%s.cfg" % ck.tier, timeout=q(ck, 600, 3000))
+    ck.trace("alloc", "alloc", [], "TraceCodec", "TraceCodec.cfg", ["InvC07"], worker=True,
+             nontrivial=lambda e: e.get("ev") == "alloc" and e.get("len", 0) > 14,
+             key=lambda e: json.dumps([e.get("ev"), e.get("family"), e.get("len"), e.get("head")]))
+    ck.assumptions += ["TotalAlloc measured in-process around hsms.Parse (GC cannot lower it)",
+                       "asymptotic 'linear' is decided as a fixed numeric bound on the families run, plus the amortised invariant on the model"]
